@@ -162,3 +162,63 @@ func Harness_C02_buffer_range() {
 	verifAssert(c.offset == 0 && s.b.consumers[c] == s.off+s.n, "buffer_range_commits_everything_visited")
 	verifReach("end")
 }
+
+// verifMockProducer lets a harness drive consumer.Get's asynchronous path without a Buffer.
+type verifMockProducer struct {
+	out chan struct {
+		Value interface{}
+		Error error
+	}
+	reqOff  int
+	commits int
+}
+
+func (p *verifMockProducer) delete(c *consumer) {}
+func (p *verifMockProducer) getAsync(ctx context.Context, c *consumer, offset int, cancels ...context.Context) (<-chan struct {
+	Value interface{}
+	Error error
+}, interface{}, error) {
+	p.reqOff = offset
+	return p.out, nil, nil
+}
+func (p *verifMockProducer) commit(c *consumer, offset int) error { p.commits += offset; return nil }
+
+// C02 get_atomic: a Get blocked in the asynchronous path is atomic with respect to Rollback / Commit on the
+// same consumer from another goroutine: the position it asked for is the position it advances.
+func Harness_C02_get_atomic() {
+	p := &verifMockProducer{out: make(chan struct {
+		Value interface{}
+		Error error
+	}, 1)}
+	c := &consumer{done: make(chan struct{}), producer: p}
+	c.cond = newCondFor(&c.mutex)
+	c.ctx, c.cancel = context.WithCancel(context.Background())
+	c.offset = 2 // two uncommitted reads
+	doCommit := verifNondetBool("commit_instead_of_rollback")
+	var v interface{}
+	var err error
+	go func() { v, err = c.Get(context.Background()) }()
+	go func() {
+		if doCommit {
+			_ = c.Commit()
+		} else {
+			_ = c.Rollback()
+		}
+	}()
+	go func() {
+		p.out <- struct {
+			Value interface{}
+			Error error
+		}{Value: vtok(9)}
+	}()
+	verifFinally(func() {
+		verifAssert(err == nil && v == vtok(9), "get_returns_the_delivered_value")
+		// serial outcomes: (txn then Get) asked for position 0 and ends with 1 pending read;
+		// (Get then txn) asked for position 2 and ends with 0 pending reads
+		verifAssert((p.reqOff == 0 && c.offset == 1) || (p.reqOff == 2 && c.offset == 0), "blocked_get_is_atomic_wrt_commit_and_rollback")
+		if doCommit {
+			verifAssert(p.commits == 2 || p.commits == 3, "commit_folds_exactly_the_reads_before_it")
+		}
+		verifReach("quiescent")
+	})
+}
